@@ -89,6 +89,28 @@ def items(tier, seed):
     # to_chars_static<Base>: EVERY base 2..36 at the limits of every width (+ to_chars_capacity<T>{}(base) for every base)
     for t in CT:
         out.append((0.5, 'tc::fixb_all<%s>(rng);' % CT[t]))
+    # G. CNL wrapper integers (to_chars converts them to native rounding first; operator<< streams the representation;
+    # the capacity is computed from the digits the wrapper declares)
+    ov = ['saturated_overflow_tag', 'trapping_overflow_tag', 'native_overflow_tag', 'undefined_overflow_tag']
+    rdm = ['nearest_rounding_tag', 'tie_to_pos_inf_rounding_tag', 'neg_inf_rounding_tag', 'native_rounding_tag']
+    wrappers = [('rounding_integer<std::int64_t, nearest_rounding_tag>', 'i64'),
+                ('rounding_integer<std::int32_t, %s>' % rdm[seed % 3], 'i32'),
+                ('rounding_integer<std::uint16_t, tie_to_pos_inf_rounding_tag>', 'u16'),
+                ('overflow_integer<std::int32_t, %s>' % ov[seed % 4], 'i32'),
+                ('elastic_integer<%d, int>' % [10, 7, 15, 31][seed % 4], 'i32'),
+                ('elastic_integer<%d, int>' % [40, 63, 33, 32][seed % 4], 'i64'),
+                ('elastic_integer<%d, unsigned>' % [20, 32, 16, 8][seed % 4], 'u32'),
+                ('static_integer<%d>' % [31, 24, 12, 30][seed % 4], 'i32'),
+                ('overflow_integer<rounding_integer<std::int32_t, %s>, trapping_overflow_tag>' % rdm[(seed + 1) % 4], 'i32'),
+                ('wide_integer<%d, int>' % [24, 31, 63, 40][seed % 4], 'i64'),
+                ('static_integer<%d, nearest_rounding_tag, saturated_overflow_tag, std::int64_t>' % rnd.randint(33, 63), 'i64'),
+                ('rounding_integer<elastic_integer<%d, int>, nearest_rounding_tag>' % rnd.randint(2, 31), 'i32'),
+                ('overflow_integer<std::uint64_t, saturated_overflow_tag>', 'u64'),
+                ('rounding_integer<%s, %s>' % (CT[rnd.choice(['i16', 'u32', 'u64', 'i64'])], rnd.choice(rdm)), None)]
+    for (w, t) in wrappers:
+        if t is None:
+            t = [k for k in CT if CT[k] in w][0]
+        out.append((0.5, 'tc::wrap_sweep<%s, %s, %d, %d>(v_%s);' % (w, CT[t], rnd.choice([2, 8, 16]), rnd.randint(3, 36), t)))
     # ... and of wide_integer<D, int>
     # 93, 103, 186, 196, 206: digit counts where D*log10(2) is within 0.02 of an integer (the decimal length formula is tight)
     for d in sorted(set([65, 127, 128, 200, 196, [93, 103, 186, 206][seed % 4], rnd.randint(66, 260)])):
